@@ -429,6 +429,15 @@ func checkCase(c ipCase) (o pbt.Outcome) {
 		return
 	}
 	if err != nil {
+		for _, e := range c.List {
+			if e.Blank {
+				// whether a blank entry is ignored or refused is configuration parsing the property does not fix
+				o.Skip = "configuration with a blank entry was rejected"
+				o.NonTrivial = false
+				o.Labels = nil
+				return
+			}
+		}
 		// every generated entry is a valid address or CIDR block: configuration must be accepted
 		o.Violation = fmt.Sprintf("NewNamespace rejected the valid allow-list %q: %v", cfg.AllowedIP, err)
 		return
